@@ -50,10 +50,21 @@ static void verror_at(char *filename, char *input, int line_no,
 }
 
 void error_at(char *loc, char *fmt, ...) {
+  // Newlines removed with a backslash are re-inserted after the logical
+  // line, so the ones between the beginning of the logical line and
+  // `loc` have to be added to get the physical line number.
   int line_no = 1;
-  for (char *p = current_file->contents; p < loc; p++)
-    if (*p == '\n')
+  int *sp = current_file->splices;
+  int k = 0;
+  for (char *p = current_file->contents; p <= loc; p++) {
+    for (; sp && *sp >= 0 && *sp <= p - current_file->contents; sp++)
+      k++;
+    if (p < loc && *p == '\n') {
       line_no++;
+      k = 0;
+    }
+  }
+  line_no += k;
 
   va_list ap;
   va_start(ap, fmt);
@@ -469,13 +480,24 @@ static void add_line_numbers(Token *tok) {
   char *p = current_file->contents;
   int n = 1;
 
+  // A token in a line continued with backslash-newline is k physical
+  // lines below the beginning of its logical line, where k is the number
+  // of backslash-newlines removed between the two. The removed newlines
+  // were re-inserted after the logical line, so `n` is right again there.
+  int *sp = current_file->splices;
+  int k = 0;
+
   do {
+    for (; sp && *sp >= 0 && *sp <= p - current_file->contents; sp++)
+      k++;
     if (p == tok->loc) {
-      tok->line_no = n;
+      tok->line_no = n + k;
       tok = tok->next;
     }
-    if (*p == '\n')
+    if (*p == '\n') {
       n++;
+      k = 0;
+    }
   } while (*p++);
 }
 
@@ -722,9 +744,12 @@ static void canonicalize_newline(char *p) {
   p[j] = '\0';
 }
 
-// Removes backslashes followed by a newline.
-static void remove_backslash_newline(char *p) {
+// Removes backslashes followed by a newline. Returns the offsets (in the
+// resulting text) at which they were removed, terminated by -1.
+static int *remove_backslash_newline(char *p) {
   int i = 0, j = 0;
+  int *splices = NULL;
+  int nsplices = 0;
 
   // We want to keep the number of newline characters so that
   // the logical line number matches the physical one.
@@ -735,6 +760,9 @@ static void remove_backslash_newline(char *p) {
     if (p[i] == '\\' && p[i + 1] == '\n') {
       i += 2;
       n++;
+      splices = realloc(splices, sizeof(int) * (nsplices + 2));
+      splices[nsplices++] = j;
+      splices[nsplices] = -1;
     } else if (p[i] == '\n') {
       p[j++] = p[i++];
       for (; n > 0; n--)
@@ -747,6 +775,7 @@ static void remove_backslash_newline(char *p) {
   for (; n > 0; n--)
     p[j++] = '\n';
   p[j] = '\0';
+  return splices;
 }
 
 static uint32_t read_universal_char(char *p, int len) {
@@ -760,10 +789,15 @@ static uint32_t read_universal_char(char *p, int len) {
 }
 
 // Replace \u or \U escape sequences with corresponding UTF-8 bytes.
-static void convert_universal_chars(char *p) {
+// The text gets shorter, so the offsets in `splices` move with it.
+static void convert_universal_chars(char *p, int *splices) {
   char *q = p;
+  char *start = p;
 
   while (*p) {
+    for (; splices && *splices >= 0 && *splices <= p - start; splices++)
+      *splices = q - start;
+
     if (startswith(p, "\\u")) {
       uint32_t c = read_universal_char(p + 2, 4);
       if (c) {
@@ -804,12 +838,13 @@ Token *tokenize_file(char *path) {
     p += 3;
 
   canonicalize_newline(p);
-  remove_backslash_newline(p);
-  convert_universal_chars(p);
+  int *splices = remove_backslash_newline(p);
+  convert_universal_chars(p, splices);
 
   // Save the filename for assembler .file directive.
   static int file_no;
   File *file = new_file(path, file_no + 1, p);
+  file->splices = splices;
 
   // Save the filename for assembler .file directive.
   input_files = realloc(input_files, sizeof(char *) * (file_no + 2));
